@@ -1,7 +1,6 @@
 /-
-Helper lemmas for C12, foreach provider: invariants of its synchronisation skeleton
-(`Arca.Model.ForeachStep.syncStep`), with and without the hypothesis that `run()` has registered itself in the wait
-group before the first close call.
+Helper lemmas for C12, foreach provider: the inductive invariant of its synchronisation skeleton
+(`Arca.Model.ForeachStep.syncStep`).
 -/
 import Arca.Model.PluginStep
 
@@ -12,56 +11,35 @@ open Arca.Gen
 def beforeCompletion (p : Pc) : Prop :=
   p = .notStarted ∨ p = .waitingEnable ∨ p = .waitingExecute ∨ p = .executing
 
-/-- holds in every reachable state, registered or not -/
+/-- holds in every reachable state -/
 structure Inv (s : SyncState) : Prop where
   enabled0 : s.enabledAvail = false → s.enabledOcc = 0
   enabled1 : s.enabledOcc ≤ 1
   exec0 : s.execAvail = false → s.execOcc = 0
   exec1 : s.execOcc ≤ 1
-  pending : s.provPending = true → s.execOcc = 0 ∧ s.execAvail = true
-  compl0 : beforeCompletion s.pc → s.completions = 0
-  compl1 : s.completions ≤ 1
+  /-- a provider between its `closed` check and its send: nothing is in the channel and the channel is open -/
+  pending : s.provPending = true → s.execOcc = 0 ∧ s.execAvail = true ∧ s.execChanClosed = false
+  /-- exactly one completion, reported before `run()` ends -/
+  compl : s.completions = (if s.pc = .notStarted ∨ s.pc = .waitingEnable ∨ s.pc = .waitingExecute ∨ s.pc = .executing then 0 else 1)
   closedCtx : s.closed = true → s.ctxDone = true
   closing : s.firstCloser = true ∨ 0 < s.closeWaiting ∨ 0 < s.closeReturned ∨ s.execChanClosed = true → s.closed = true
+  /-- the wait group counts `run()`, which `Start` registered before creating the goroutine -/
+  wg : s.wg = (if s.pc = .done then 0 else 1)
+  returned : 0 < s.closeReturned → s.pc = .done
+  late : s.lateNotif = false
 
 theorem inv_init : Inv syncInit := by
-  constructor <;> simp [syncInit, beforeCompletion]
+  constructor <;> simp [syncInit]
 
 theorem inv_step (s s' : SyncState) (a : Act) (hi : Inv s) (hs : syncStep s a = .next s') : Inv s' := by
-  obtain ⟨e0, e1, x0, x1, pd, c0, c1, cc, cl⟩ := hi
+  obtain ⟨e0, e1, x0, x1, pd, c0, cc, cl, wg, rt, lt⟩ := hi
   cases s
   cases a <;> simp only [syncStep, runMove] at hs <;> (repeat' split at hs) <;> cases hs <;>
-    constructor <;> simp_all [beforeCompletion] <;> (try omega)
+    constructor <;> simp_all <;> (try omega)
 
 theorem reachable_inv (s : SyncState) (hr : Reachable s) : Inv s := by
   induction hr with
   | init => exact inv_init
   | step a _ hs ih => exact inv_step _ _ a ih hs
-
-/-- the additional invariant when no close call precedes `r.wg.Add(1)` -/
-structure RegInv (s : SyncState) : Prop where
-  started : s.pc ≠ .notStarted
-  wg : s.wg = (if s.pc = .done then 0 else 1)
-  returned : 0 < s.closeReturned → s.pc = .done
-  late : s.lateNotif = false
-
-theorem reginv_step (s s' : SyncState) (a : Act) (hi : RegInv s) (hs : syncStep s a = .next s') : RegInv s' := by
-  obtain ⟨st, wg, rt, lt⟩ := hi
-  cases s
-  cases a <;> simp only [syncStep, runMove] at hs <;> (repeat' split at hs) <;> cases hs <;>
-    constructor <;> simp_all <;> (try omega)
-
-theorem registered_reginv (s : SyncState) (hr : ReachableRegistered s) : RegInv s := by
-  induction hr with
-  | init h0 =>
-    simp [syncStep, runMove, syncInit] at h0
-    subst h0
-    constructor <;> simp
-  | step a _ hs ih => exact reginv_step _ _ a ih hs
-
-theorem registered_reachable (s : SyncState) (hr : ReachableRegistered s) : Reachable s := by
-  induction hr with
-  | init h0 => exact Reachable.step .runBegin Reachable.init h0
-  | step a _ hs ih => exact Reachable.step a ih hs
 
 end Arca.Proofs.PluginForeach
